@@ -144,8 +144,13 @@ type SpecLet struct {
 type Lemma struct {
 	Name string
 	Tags []string
-	E    Expr
+	E    Expr // one-line form: the closed formula to prove
 	Text string
+	// structured form
+	Params  []Param
+	Splits  []SplitSpec
+	Assumes []Clause
+	Shows   []Clause
 }
 
 type Contracts struct {
@@ -428,7 +433,7 @@ func parseExprString(s string) (e Expr, err error) {
 // ---------- file-level parser ----------
 
 var itemKeywords = map[string]bool{"uf": true, "pure": true, "func": true, "extern": true, "trusted": true, "lemma": true, "ghost": true}
-var clauseKeywords = map[string]bool{"exit": true, "uses": true, "spec": true, "cut": true, "assert": true, "arith": true, "requires": true, "ensures": true, "modifies": true, "decreases": true, "split": true,
+var clauseKeywords = map[string]bool{"param": true, "assume": true, "show": true, "exit": true, "uses": true, "spec": true, "cut": true, "assert": true, "arith": true, "requires": true, "ensures": true, "modifies": true, "decreases": true, "split": true,
 	"loop": true, "invariant": true, "backedge": true, "iteration": true, "bounded": true, "panics": true}
 
 // readContractLines returns the logical lines (keyword + text) of all //@ lines
@@ -559,11 +564,12 @@ func ParseContracts(paths []string) (*Contracts, error) {
 		}
 		var cur *FuncC
 		var curLoop *LoopC
+		var curLemma *Lemma
 		for _, l := range lines {
 			fail := func(err error) error { return fmt.Errorf("%s:%d: %v", path, l.line, err) }
 			switch l.kw {
 			case "pure", "uf":
-				cur, curLoop = nil, nil
+				cur, curLoop, curLemma = nil, nil, nil
 				if l.kw == "uf" && !strings.Contains(l.text[matchParen(l.text)+1:], "=") {
 					// uninterpreted function without a definition: uf name(p T, ...) ResultType
 					rp := matchParen(l.text)
@@ -639,8 +645,21 @@ func ParseContracts(paths []string) (*Contracts, error) {
 				cur, curLoop = nil, nil
 				k := strings.Index(l.text, ":")
 				if k < 0 {
-					return nil, fail(fmt.Errorf("lemma: missing ':'"))
+					// structured lemma: param / split / assume / show lines follow
+					head := strings.Fields(l.text)
+					if len(head) == 0 {
+						return nil, fail(fmt.Errorf("lemma: missing name"))
+					}
+					var tags []string
+					for _, x := range head[1:] {
+						tg, _ := parseTags(x)
+						tags = append(tags, tg...)
+					}
+					curLemma = &Lemma{Name: head[0], Tags: tags}
+					cs.Lemmas = append(cs.Lemmas, curLemma)
+					continue
 				}
+				curLemma = nil
 				head := strings.Fields(l.text[:k])
 				if len(head) == 0 {
 					return nil, fail(fmt.Errorf("lemma: missing name"))
@@ -656,6 +675,7 @@ func ParseContracts(paths []string) (*Contracts, error) {
 				}
 				cs.Lemmas = append(cs.Lemmas, &Lemma{Name: head[0], Tags: tags, E: e, Text: strings.TrimSpace(l.text[k+1:])})
 			case "func", "extern", "trusted":
+				curLemma = nil
 				name := strings.TrimSpace(l.text)
 				if _, dup := cs.Funcs[name]; dup {
 					return nil, fail(fmt.Errorf("contract for %s given twice", name))
@@ -665,6 +685,47 @@ func ParseContracts(paths []string) (*Contracts, error) {
 				cs.Funcs[name] = cur
 				cs.Order = append(cs.Order, name)
 			default:
+				if curLemma != nil && cur == nil {
+					switch l.kw {
+					case "param":
+						f := strings.Fields(l.text)
+						if len(f) < 2 {
+							return nil, fail(fmt.Errorf("param: expected 'name type'"))
+						}
+						curLemma.Params = append(curLemma.Params, Param{Name: f[0], Type: strings.Join(f[1:], " ")})
+					case "split":
+						k := strings.LastIndex(l.text, " in ")
+						if k < 0 {
+							return nil, fail(fmt.Errorf("split: expected '<name> in lo..hi'"))
+						}
+						e, err := parseExprString(l.text[:k])
+						if err != nil {
+							return nil, fail(err)
+						}
+						r := strings.Split(strings.TrimSpace(l.text[k+4:]), "..")
+						lo, e1 := strconv.ParseInt(strings.TrimSpace(r[0]), 10, 64)
+						hi, e2 := strconv.ParseInt(strings.TrimSpace(r[len(r)-1]), 10, 64)
+						if len(r) != 2 || e1 != nil || e2 != nil {
+							return nil, fail(fmt.Errorf("split: bad range"))
+						}
+						curLemma.Splits = append(curLemma.Splits, SplitSpec{E: e, Text: strings.TrimSpace(l.text[:k]), Lo: lo, Hi: hi})
+					case "assume", "show":
+						tags, rest := parseTags(l.text)
+						e, err := parseExprString(rest)
+						if err != nil {
+							return nil, fail(err)
+						}
+						c := Clause{Kind: l.kw, Tags: tags, E: e, Text: rest}
+						if l.kw == "assume" {
+							curLemma.Assumes = append(curLemma.Assumes, c)
+						} else {
+							curLemma.Shows = append(curLemma.Shows, c)
+						}
+					default:
+						return nil, fail(fmt.Errorf("clause %q inside a lemma", l.kw))
+					}
+					continue
+				}
 				if cur == nil {
 					return nil, fail(fmt.Errorf("clause %q outside a func item", l.kw))
 				}
